@@ -1172,8 +1172,9 @@ impl State {
                     let msg = xeh_xstr!("late word resolves to a build-time word");
                     return Err(Xerr::ErrorMsg(msg));
                 }
-                if self.ctx.mode == ContextMode::MetaEval {
-                    // what a meta block sees goes away with it: bind for this call only
+                if self.ctx.mode == ContextMode::MetaEval || !self.input.is_empty() {
+                    // what a meta block sees goes away with it, and so may what a source
+                    // that is still being read has defined: bind for this call only
                     let op = match e {
                         Entry::Constant(c) => self.load_value_opcode(c.clone()),
                         Entry::Variable(a) => Opcode::Load(*a),
